@@ -276,6 +276,33 @@ let monitors id sc (o : obs) =
       go false w.w_txs in
     specviol id (if later_rollback_applied then "c20_blocked_change_released_by_later_rollback" else "c20_failed_does_not_block") ctx
   end;
+  (* the ordinals handed out by commits stay inside the Committed cursor (C20_change_ordinal_within_cursor,
+     C20_rollback_ordinal_is_cursor, C20_ordinals_follow_log_order), evaluated on the implementation's own records *)
+  (match w.w_cfg with
+   | Some c ->
+     let co = int_of_n c.c_cm.k_ordinal in
+     let committed = List.filter (fun (_, t) -> t.t_cc = Complete) (List.mapi (fun k t -> (k + 1, t)) w.w_txs) in
+     List.iter (fun (j, t) ->
+         let o' = int_of_n t.t_cord in
+         if o' < 1 || o' > co then
+           specviol id "c20_ordinal_outside_cursor"
+             (Printf.sprintf "transaction %d committed with ordinal %d, Committed.Ordinal of the configuration is %d; %s" j o' co ctx);
+         List.iter (fun (k, u) -> if j < k && not (o' < int_of_n u.t_cord) then
+                       specviol id "c20_ordinals_not_in_log_order"
+                         (Printf.sprintf "transactions %d < %d committed with ordinals %d, %d; %s" j k o' (int_of_n u.t_cord) ctx)) committed)
+       committed;
+     List.iteri (fun k t ->
+         if t.t_rc = Some Complete then begin
+           let ro = int_of_n t.t_rord in
+           if ro <> co then
+             specviol id "c20_ordinal_outside_cursor"
+               (Printf.sprintf "rollback of transaction %d committed with ordinal %d, Committed.Ordinal of the configuration is %d; %s" (k + 1) ro co ctx);
+           List.iter (fun (j, u) -> if not (int_of_n u.t_cord < ro) then
+                         specviol id "c20_ordinal_outside_cursor"
+                           (Printf.sprintf "rollback of transaction %d has ordinal %d, not above ordinal %d of committed change %d; %s"
+                              (k + 1) ro (int_of_n u.t_cord) j ctx)) committed
+         end) w.w_txs
+   | None -> ());
   (match w.w_cfg with
    | Some c ->
      (* committed consistency on what the store's Get returns (cross-checked with the model's view function) *)
